@@ -71,6 +71,12 @@ CHECKS = {
    text="Targets are pre-filled with sentinels; after the call (or after computing the lazily returned arrays) each target must exist, hold exactly the source values inside the region and sentinels outside; unsafe requests (misaligned region, region end not at a chunk boundary or the edge, wrong shape, source narrower than a chunk at a misaligned offset) must be rejected with an allowed exception and without any store write or new file. Threads runs use injected write latency so that multi-writer layouts lose data deterministically.",
    note="Trusted: TLC; plain zarr reads as the observer of target contents. One source stored to several targets in one call is the open finding F8/F9 (taint from PlanGraph).",
    design_ref="DESIGN.md §5 C11"),
+ "C20": dict(
+   engine="PlanGraph",
+   technique="TLA+ spec PlanGraph.tla with two processes (per-process name counters, plans merged by name, cloudpickle shipping) model-checked by TLC; TLC-generated two-process histories replayed with every process in a fresh interpreter and arrays shipped by cloudpickle; same-process round trips of generated programs",
+   text="TLC shows that in the design as it is every confusion of two arrays goes through the taint name-collision (F10) and that ValueFixed is violated. Each generated history (sender builds and ships, receiver creates arrays before/after, derives from shipped and local arrays, computes) is executed by two fresh interpreters so that name counters are exactly the model's; every compute is compared with NumPy shadows; untainted failures are violations.",
+   note="Trusted: TLC; one cubed operation per model Derive so that counters agree. Open finding F10 is reported as KNOWN-FINDING.",
+   design_ref="DESIGN.md §5 C20, §4.3"),
  "C12": dict(
    engine="DagExec+TaskTrace",
    technique="zarr-level write records of every task validated by the TLA+ monitor TaskTrace.tla (value shape = region shape is the enabling condition of the write action); declared vs backing vs result metadata compared in the monitor; DagExec.tla multi-output plan model-checked",
